@@ -903,6 +903,10 @@ func c10JudgeD(c c10DCase, sets [][]docFeature) (clause, detail string) {
 			if d := sameObj("carddav", o.Path, objs[i].path, o.ETag, wantTag(i), o.ModTime, wantMT(i)); d != "" {
 				return "sync-metadata", d
 			}
+			// the document carries the address-data the query asked for: it reaches the caller
+			if !reflect.DeepEqual(o.Card, wantCard) {
+				return "sync-content", fmt.Sprintf("got %s want %s", dumpCard(o.Card), dumpCard(wantCard))
+			}
 		}
 	}
 	return "", ""
